@@ -97,7 +97,8 @@ Side0 ==
     usl |-> NoDecl, utp |-> NoDecl,        \* self._stop_loss / self._take_profit
     plan |-> NoPlan,                       \* what the scripted user will declare in on_open / on_increased
     tb |-> <<>>, ts |-> <<>>, topen |-> 0, ttype |-> "none",   \* the running trade: buy rows, sell rows, opened minute
-    trades |-> <<>>, hooks |-> <<>>, log |-> <<>>, daily |-> <<RI(Start)>>, status |-> "run" ]
+    trades |-> <<>>, hooks |-> <<>>, log |-> <<>>, daily |-> <<RI(Start)>>, status |-> "run",
+    ext |-> RI(0), extPnl |-> RI(0) ]     \* margin used by / unrealised PnL of the OTHER symbol on the same wallet (WholeRun2)
 Running(s) == s.status = "run"
 Ord(id_, side_, typ_, q_, p_, ro_, via_) == [id |-> id_, side |-> side_, typ |-> typ_, q |-> q_, p |-> p_, ro |-> ro_, via |-> via_]
 ById(s, oid) == LET mm == SelectSeq(s.ords, LAMBDA x : x.id = oid) IN mm[1]
@@ -110,8 +111,9 @@ Pnl(s)     == IF s.q = 0 THEN RI(0) ELSE RMulI(RSub(RI(Px(s.cur)), EnReal(s)), s
 Cost(s)    == IF s.q = 0 THEN RI(0) ELSE RDivI(RMulI(EnReal(s), Abs(s.q)), Lev)
 RECURSIVE SumRows(_)
 SumRows(rows) == IF rows = <<>> THEN 0 ELSE rows[1][1] * Px(rows[1][2]) + SumRows(Tail(rows))
-Margin(s)  == RSub(RSub(s.wal, RSub(Cost(s), Pnl(s))), Norm(Max2(SumRows(s.resB), SumRows(s.resS)), Lev))
-Equity(s)  == RAdd(s.wal, Pnl(s))                                  \* save_daily_portfolio_balance (futures)
+Spent(s)   == RAdd(RSub(Cost(s), Pnl(s)), Norm(Max2(SumRows(s.resB), SumRows(s.resS)), Lev))
+Margin(s)  == RSub(RSub(s.wal, Spent(s)), s.ext)
+Equity(s)  == RAdd(RAdd(s.wal, Pnl(s)), s.extPnl)                  \* save_daily_portfolio_balance (futures)
 
 \* ---- Order.__init__ -> on_order_submission (+ Sandbox registration) ----
 Submit(s, side, typ, q, p, ro, via) ==
@@ -259,30 +261,32 @@ SubmitEntryRow(s, dir, r) ==
   ELSE IF (dir = 1) = (r.p > s.cur) THEN Submit(s, side, "STOP", r.q, r.p, FALSE, "entry")
   ELSE Submit(s, side, "LIMIT", r.q, r.p, FALSE, "entry")
 HasEntry(s) == s.q = 0 /\ s.ords # <<>>
-Decide(s, row, minute) ==
+\* Strategy._check up to its market flush: should_cancel_entry, update_position (+ modifications)
+DecidePre(s, row) ==
   IF ~Running(s) THEN s ELSE
   LET seen == s.cur                                                    \* self.price is cached for the whole step
       s1 == IF HasEntry(s) /\ row.cancel THEN [ExecuteCancel(s) EXCEPT !.plan = NoPlan] ELSE s
-      \* _update_position -> update_position(): liquidate() declares (qty, price) as take-profit when in profit, else as
-      \* stop-loss; the edit declares a new stop-loss price; then the modifications are handled
-      s2 == IF s1.q = 0 THEN s1
-            ELSE LET u == IF row.close          \* liquidate(): the declared quantity is position.qty, i.e. signed
-                          THEN (IF RLt(RI(0), Pnl(s1)) THEN [s1 EXCEPT !.dtp = Decl(s1.q, seen), !.utp = IF LiqFix THEN NoDecl ELSE @]
-                                ELSE [s1 EXCEPT !.dsl = Decl(s1.q, seen), !.usl = IF LiqFix THEN NoDecl ELSE @])
-                          ELSE IF row.edit # 0 THEN [s1 EXCEPT !.dsl = Decl(Abs(s1.q), row.edit)] ELSE s1
-                 IN DetectMods(u, seen)
-      s3 == Flush(s2, minute)
-      e  == row.entry
+  IN \* _update_position -> update_position(): liquidate() declares (qty, price) as take-profit when in profit, else as
+     \* stop-loss; the edit declares a new stop-loss price; then the modifications are handled
+     IF s1.q = 0 THEN s1
+     ELSE LET u == IF row.close          \* liquidate(): the declared quantity is position.qty, i.e. signed
+                   THEN (IF RLt(RI(0), Pnl(s1)) THEN [s1 EXCEPT !.dtp = Decl(s1.q, seen), !.utp = IF LiqFix THEN NoDecl ELSE @]
+                         ELSE [s1 EXCEPT !.dsl = Decl(s1.q, seen), !.usl = IF LiqFix THEN NoDecl ELSE @])
+                   ELSE IF row.edit # 0 THEN [s1 EXCEPT !.dsl = Decl(Abs(s1.q), row.edit)] ELSE s1
+          IN DetectMods(u, seen)
+\* ... and after it: should_long / should_short, go_long / go_short, the entry rows
+DecideEntry(s3, row) ==
+  LET e  == row.entry
       tot == e.r1.q + e.r2.q
-      s4 == IF s3.q = 0 /\ s3.ords = <<>> /\ e.dir # 0 /\ Running(s3)
-            THEN LET a == [s3 EXCEPT !.plan = [mode |-> e.mode, sl |-> e.sl, tp |-> e.tp, d |-> e.d, half |-> e.half],
-                                     !.dsl = IF e.mode = "go" THEN Decl(tot, e.sl) ELSE NoDecl,
-                                     !.dtp = IF e.mode = "go" THEN Decl(TpQ(tot, e.half), e.tp) ELSE NoDecl,
-                                     !.usl = IF e.mode = "go" THEN Decl(tot, e.sl) ELSE NoDecl,
-                                     !.utp = IF e.mode = "go" THEN Decl(TpQ(tot, e.half), e.tp) ELSE NoDecl]
-                 IN SubmitEntryRow(SubmitEntryRow(a, e.dir, e.r1), e.dir, e.r2)
-            ELSE s3
-  IN Flush(s4, minute)
+  IN IF s3.q = 0 /\ s3.ords = <<>> /\ e.dir # 0 /\ Running(s3)
+     THEN LET a == [s3 EXCEPT !.plan = [mode |-> e.mode, sl |-> e.sl, tp |-> e.tp, d |-> e.d, half |-> e.half],
+                              !.dsl = IF e.mode = "go" THEN Decl(tot, e.sl) ELSE NoDecl,
+                              !.dtp = IF e.mode = "go" THEN Decl(TpQ(tot, e.half), e.tp) ELSE NoDecl,
+                              !.usl = IF e.mode = "go" THEN Decl(tot, e.sl) ELSE NoDecl,
+                              !.utp = IF e.mode = "go" THEN Decl(TpQ(tot, e.half), e.tp) ELSE NoDecl]
+          IN SubmitEntryRow(SubmitEntryRow(a, e.dir, e.r1), e.dir, e.r2)
+     ELSE s3
+Decide(s, row, minute) == Flush(DecideEntry(Flush(DecidePre(s, row), minute), row), minute)
 
 \* Strategy._terminate + _execute_market_orders, then the final equity sample
 Terminate(s, minute) ==
